@@ -1,6 +1,7 @@
 package main
 
 import (
+	"regexp"
 	"fmt"
 	"strings"
 
@@ -12,6 +13,8 @@ import (
 // C20 — unlikely-content pruning applies only if enough content remains.
 
 var c20Markers = []string{"sidebar", "footer", "menu", "banner", "breadcrumbs", "related", "sponsor", "popup", "pager", "site-header", "rss-box", "shoutbox", "skyscraper", "supplemental", "disqus_thread", "extra-stuff", "legends", "gdpr", "pagination", "cover-wrap", "ad-break", "agegate", "yom-remote", "combx", "x-ad-y", "SideBar", "FOOTER"}
+var rxRoleAttr = regexp.MustCompile(` role="[^"]*"`)
+
 var c20Roles = []string{"menu", "menubar", "complementary", "navigation", "alert", "alertdialog", "dialog"}
 
 type c20Block struct {
@@ -65,7 +68,20 @@ func runC20(c *Ctx, idx int) {
 			a = fmt.Sprintf(`id="%s" data-mark="1"`, c20Markers[r.Intn(len(c20Markers))])
 			markerKinds = append(markerKinds, "id")
 		default:
-			a = fmt.Sprintf(`role="%s" data-mark="1"`, c20Roles[r.Intn(len(c20Roles))])
+			role := c20Roles[r.Intn(len(c20Roles))]
+			switch r.Intn(8) { // legal spellings of a role value: letter case, white space, a fallback role after it
+			case 0:
+				role = strings.ToUpper(role[:1]) + role[1:]
+			case 1:
+				role = strings.ToUpper(role)
+			case 2:
+				role = " " + role
+			case 3:
+				role = role + " "
+			case 4:
+				role = role + " region"
+			}
+			a = fmt.Sprintf(`role="%s" data-mark="1"`, role)
 			markerKinds = append(markerKinds, "role")
 		}
 		var sb strings.Builder
@@ -114,6 +130,23 @@ func runC20(c *Ctx, idx int) {
 			return `<table summary="s"><tr><th>` + tc.tok() + `</th><th ` + at + `="` + m + `">` + tc.tok() + `</th></tr><tr><td>` + tc.tok() + `</td><td><span ` + at + `="` + m + `">` + tc.tok() + `</span></td></tr></table>`
 		}
 	}
+	// content elements that are emitted as a whole (figure, data table) with a marked subtree inside
+	inner := func() string {
+		m := c20Markers[r.Intn(len(c20Markers))]
+		role := c20Roles[r.Intn(len(c20Roles))]
+		switch r.Intn(4) {
+		case 0: // the caption of a figure is marked
+			markerKinds = append(markerKinds, "in-figure")
+			at := []string{`class="` + m + `"`, `id="` + m + `"`, `role="` + role + `"`}[r.Intn(3)]
+			return `<figure>` + img() + `<figcaption ` + at + ` data-mark="1">` + tc.toks(3+r.Intn(8)) + `</figcaption></figure>`
+		case 1: // a marked box with another picture inside a figure, before the real one
+			markerKinds = append(markerKinds, "in-figure")
+			return `<figure><div class="` + m + `" data-mark="1">` + img() + `</div>` + img() + `<figcaption>` + tc.toks(3+r.Intn(8)) + `</figcaption></figure>`
+		default: // a role-marked box in a cell of a data table (class / id markers are exempt inside tables, roles are not)
+			markerKinds = append(markerKinds, "in-table")
+			return `<table summary="s"><tr><th>` + tc.tok() + `</th><th>` + tc.tok() + `</th></tr><tr><td>` + tc.tok() + ` <div role="` + role + `" data-mark="1">` + tc.toks(2+r.Intn(6)) + `</div></td><td>` + tc.tok() + `</td></tr><tr><td>` + tc.tok() + `</td><td>` + tc.tok() + `</td></tr></table>`
+		}
+	}
 	// target amount of remaining content
 	target := 250 + r.Intn(501)
 	if idx%2 == 0 {
@@ -136,6 +169,9 @@ func runC20(c *Ctx, idx int) {
 		} else if r.Intn(12) == 0 {
 			parts = append(parts, decoy())
 			placement += "decoy,"
+		} else if r.Intn(10) == 0 && words > 0 {
+			parts = append(parts, inner())
+			placement += "inner,"
 		} else {
 			n := 10 + r.Intn(90)
 			if words+n > target-40 {
@@ -221,6 +257,9 @@ func runC20(c *Ctx, idx int) {
 	W = rd.Res.WordCount
 	vd, vn, v := viewOf(rd.Res), viewOf(rn.Res), viewOf(rr.Res)
 	vd.Markup, vn.Markup, v.Markup = "", "", ""
+	// the role attribute is kept in the distilled HTML of tables; its value is what the
+	// neutral variant renames, so it is not part of the comparison
+	vd.HTML, vn.HTML, v.HTML = rxRoleAttr.ReplaceAllString(vd.HTML, ` role="*"`), rxRoleAttr.ReplaceAllString(vn.HTML, ` role="*"`), rxRoleAttr.ReplaceAllString(v.HTML, ` role="*"`)
 	c.Inc(fmt.Sprintf("W=%d", W))
 	branch := "low"
 	want := vn
